@@ -38,11 +38,14 @@ def document(draw):
     params = []
     components = {}
     uniq = [0]
+    dialect31 = [False]
 
-    def fresh(typ):
+    def fresh(typ, spaced=False):
         uniq[0] += 1
         if typ == "integer":
             return 1000 + uniq[0]
+        if spaced:
+            return f"New York {uniq[0]}"  # a space inside a URL component
         return f"ex{uniq[0]}"
 
     for name, loc in draw(st.lists(st.sampled_from([("q1", "query"), ("q2", "query"), ("h1", "header"), ("c1", "cookie"), ("id", "path")]), max_size=4, unique=True)):
@@ -52,8 +55,9 @@ def document(draw):
             p["required"] = True
         cont = CONT[loc]
         placement = draw(st.sampled_from(["none", "none", "example", "examples", "examples", "schema.example", "schema.examples", "anyOf", "ref-examples"]))
+        spaced = loc in ("path", "query") and draw(st.integers(0, 2)) == 0
         if placement == "example":
-            v = fresh(typ)
+            v = fresh(typ, spaced)
             p["example"] = v
             planted.append([cont, name, v, placement, True])
         elif placement in ("examples", "ref-examples"):
@@ -112,7 +116,19 @@ def document(draw):
                 required = draw(st.lists(st.sampled_from(sorted(props)), unique=True))
                 e = {"schema": {"type": "object", "properties": props, "required": required}}
                 pl = draw(st.sampled_from(["none", "example", "examples", "schema.example"]))
-                shape = draw(st.sampled_from(["flat", "flat", "allOf", "nested-allOf"])) if pl == "none" else "flat"
+                shape = draw(st.sampled_from(["flat", "flat", "allOf", "nested-allOf", "nested-untyped", "nested-type-list"])) if pl == "none" else "flat"
+                if shape in ("nested-untyped", "nested-type-list"):
+                    # examples two levels down, below an object that is described by `properties` alone (no `type`) or, in
+                    # OpenAPI 3.1, by a type list
+                    inner = {"properties": props, "required": required}
+                    if shape == "nested-type-list":
+                        inner["type"] = ["object", "null"]
+                        dialect31[0] = True
+                    e["schema"] = {"type": "object", "properties": {"pet": inner}, "required": ["pet"]}
+                    for entry in planted:
+                        if entry[0] == "body.prop" and entry[3].startswith("property.") and entry[1] in props and "." not in entry[1]:
+                            entry[1] = "pet." + entry[1]
+                    shape = "flat"
                 if shape != "flat":
                     # base + extension: several object branches, each with its own `required`
                     names = sorted(props)
@@ -152,11 +168,14 @@ def document(draw):
             content[mt] = e
         op["requestBody"] = {"required": True, "content": content}
     path = "/t/{id}" if has_path else "/t"
-    doc = {"openapi": "3.0.2", "info": {"title": "t", "version": "1"}, "paths": {path: {"post": op}, "/plain": {"get": {"parameters": [{"name": "n", "in": "query", "schema": {"type": "integer"}}], "responses": {"200": {"description": "ok"}}}}}}
+    doc = {"openapi": "3.1.0" if dialect31[0] else "3.0.2", "info": {"title": "t", "version": "1"}, "paths": {path: {"post": op}, "/plain": {"get": {"parameters": [{"name": "n", "in": "query", "schema": {"type": "integer"}}], "responses": {"200": {"description": "ok"}}}}}}
     if components:
         doc["components"] = {"examples": components}
     # an earlier fuzzing run in which every operation failed, sharing its Hypothesis database with the examples run
-    return {"doc": doc, "path": path, "planted": planted, "prior_failing_run": draw(st.integers(0, 2)) == 0}
+    return {"doc": doc, "path": path, "planted": planted, "prior_failing_run": draw(st.integers(0, 2)) == 0,
+            # user-configured request headers / parameter overrides that have nothing to do with the examples
+            "network_headers": draw(st.sampled_from([None, None, {"X-Other": "1"}, {"X-Other": "1", "X-Trace": "abc"}])),
+            "override": draw(st.sampled_from([None, None, {"query": {"unrelated": "ovr"}}, {"cookies": {"unrelated": "ovr"}}]))}
 
 
 def dig(body, dotted: str):
@@ -260,6 +279,12 @@ def check_engine(ctx: Ctx, inp) -> None:
 
     doc, path, planted = inp["doc"], inp["path"], inp["planted"]
     cfg = {"phases": ["examples"], "seed": 1, "checks": [], "max_examples": 5}
+    if inp.get("network_headers"):
+        cfg["network"] = {"headers": inp["network_headers"]}
+        ctx.classes["engine:configured-headers"] += 1
+    if inp.get("override"):
+        cfg["override"] = inp["override"]
+        ctx.classes["engine:configured-override"] += 1
     dbdir = None
     if inp.get("prior_failing_run"):
         import tempfile
